@@ -227,6 +227,8 @@ class SumAggregator:
             for var in collect_ast(arg, "Variable"):
                 if var.name != "_" and var not in visible:
                     return False
+                if var.name == "_" and arg.ast_type != ASTType.Variable:
+                    return False  # the argument is copied several times, every copy would get its own anonymous variable
         return True
 
     def _replace_elements(self, elements: list[AST], prg: list[AST], outer_vars: Optional[set[AST]] = None) -> list[AST]:
